@@ -6,8 +6,9 @@ import modq
 from modq import ROUTINES, true_q, canon, close, pub, arr_close, CHAN_FIELDS, full_labels
 
 ID = 'C07'
-COQ_FILES = ['Base/Mat.v', 'Base/SumQ.v', 'Base/ListX.v', 'Model/Modularity.v', 'Proofs/ModularitySums.v',
-             'Proofs/ModularityQ.v', 'Proofs/ModularityGain.v', 'Properties/C07.v']
+COQ_FILES = ['Base/Mat.v', 'Base/SumQ.v', 'Base/ListX.v', 'Model/Modularity.v', 'Model/ModularityGood.v',
+             'Proofs/ModularitySums.v', 'Proofs/ModularityQ.v', 'Proofs/ModularityGain.v', 'Proofs/ModularityRun.v',
+             'Proofs/ModularityRunSign.v', 'Proofs/ModularityRunB.v', 'Proofs/ModularityGood.v', 'Properties/C07.v']
 THEOREMS = ['C07_init_bk_inv_louvain', 'C07_init_bk_inv_louvain_sign', 'C07_init_bk_inv_finetune',
             'C07_init_bk_inv_finetune_dir', 'C07_init_bk_inv_finetune_sign', 'C07_move_preserves_bk_inv',
             'C07_move_preserves_bk_inv_dir', 'C07_move_preserves_bk_inv_sign', 'C07_move_preserves_bk_inv_B',
@@ -16,7 +17,10 @@ THEOREMS = ['C07_init_bk_inv_louvain', 'C07_init_bk_inv_louvain_sign', 'C07_init
             'C07_moves_monotone_louvainB', 'C07_finetune_und_never_worse', 'C07_finetune_dir_never_worse',
             'C07_finetune_sign_never_worse', 'C07_level_monotone', 'C07_louvain_und_level_hyps', 'C07_levels_strict',
             'C07_retained_prefix', 'C07_idempotent_restart', 'C07_louvain_dir_bk_refuted',
-            'C07_louvain_dir_monotone_refuted', 'C07_init_bk_inv_louvain_dirfix']
+            'C07_louvain_dir_monotone_refuted', 'C07_init_bk_inv_louvain_dirfix',
+            'C07_louvain_und_run_monotone', 'C07_louvain_und_sign_run_monotone', 'C07_community_louvain_run_monotone',
+            'C07_louvain_und_run_monotone_checked', 'C07_louvain_und_sign_run_monotone_checked',
+            'C07_community_louvain_run_monotone_checked']
 RULE = ('same generator as C02 (networks n=3..9, integer weights 0..4, signed/binary/directed variants, gamma in '
         '{1, 3/4, 5/4, 13/10}, all qtypes/objectives, random / one-block / shuffled-singleton / non-contiguous initial '
         'partitions); every accepted move of every run is checked; non-trivial = at least one accepted move; distinct by '
@@ -30,6 +34,7 @@ ASSUMES = ['weights are small integers: node-to-module sums are exact in binary6
 TRUSTED = ['hook events of bct.utils._verif (BCTPY_VERIF=1) are trusted to be the state of the run',
            'modularity_probtune_und_sign is not a deterministic-gain optimiser: only its bookkeeping is checked here']
 
+GOOD = ('modularity_louvain_und', 'modularity_louvain_und_sign', 'community_louvain')
 DET = ['modularity_finetune_und', 'modularity_finetune_dir', 'modularity_finetune_und_sign', 'modularity_louvain_und',
        'modularity_louvain_dir', 'modularity_louvain_und_sign', 'community_louvain']
 
@@ -193,6 +198,9 @@ def run(ctx):
                 except Exception as e:
                     ctx.fail(fn + ':raises', 'restart raised %r' % (e,), pc)
             lines.append(modq.model_line(case, levels)); pend.append((case, ci, q, levels))
+            if fn in GOOD:
+                # hypotheses of the whole-run theorem C07_*_run_monotone_checked, decided by the extracted model
+                lines.append(modq.good_line(case, levels)); pend.append((case, None, None, 'good'))
             if hier:
                 # the hierarchy rule itself (floats are rationals: the model applies the rule exactly to the emitted q's)
                 lines.append('retained ' + enc_list([L['q'] for L in levels], enc=modq.enc_qb)); pend.append((case, None, list(qh), 'retained'))
@@ -205,6 +213,15 @@ def run(ctx):
         fn = case['fn']
         if is_err(m):
             ctx.mismatch('model-error', m['error'], pc); continue
+        if levels == 'good':
+            sym_ok, pos_ok, good_ok = m
+            need_sym = fn != 'community_louvain'
+            need_pos = fn == 'modularity_louvain_und' or (fn == 'community_louvain' and case['kind'] in ('modularity', 'potts'))
+            if (need_sym and not sym_ok) or (need_pos and not pos_ok):
+                ctx.mismatch(fn + ':domain', 'generated input outside the domain of the theorem (symmetric=%s, positive total=%s)' % (sym_ok, pos_ok), pc)
+            if not good_ok:
+                ctx.mismatch(fn + ':good_run', 'an accepted move is illegal or has exact gain <= 0 (decider of the whole-run theorem hypothesis says false)', pc)
+            continue
         if levels == 'retained':
             mq = [float(dec_q(x)) for x in m]
             if mq != [float(x) for x in q]:
